@@ -82,7 +82,8 @@ ASSUMPTIONS = [
 
 CACHES = ["Simple", "Simple", "None", "MemoryFull", "HDF5", "HDF5"]
 CHANNELS = ["dumps", "dumps", "file", "fork"]
-MUTATIONS = ["defaults_inplace", "defaults_rebind", "local_data", "diff", "counters", "cache_clear", "execute"]
+MUTATIONS = ["defaults_inplace", "defaults_rebind", "defaults_delete", "local_data", "diff", "counters", "cache_clear", "execute"]
+DEFAULTS_MUTATIONS = ("defaults_inplace", "defaults_rebind", "defaults_delete")
 
 
 # ======================================================================================
@@ -427,6 +428,14 @@ def _weighted(kinds):
 PRE_OPS = ["exec", "exec", "exec_same", "lin_all", "lin_all", "lin", "lin", "defaults", "approx", "scenario"]
 
 
+def _second():
+    """A second serialisation generation: mutate the restored object, serialise it again, restore."""
+    return st.fixed_dictionaries({
+        "mutations": st.lists(st.sampled_from(MUTATIONS), min_size=1, max_size=3, unique=True),
+        "channel": st.sampled_from(["dumps", "file"]),
+    })
+
+
 @st.composite
 def discipline_cases(draw, recipe: str | None = None):
     name = recipe or draw(st.sampled_from(_weighted(("discipline", "mda"))))
@@ -441,6 +450,7 @@ def discipline_cases(draw, recipe: str | None = None):
         "gi": draw(st.integers(0, 7)),
         "cache": draw(st.sampled_from(CACHES)),
         "cache_tol": draw(st.sampled_from([0.0, 0.0, 1e-12])),
+        "cache_name": draw(st.sampled_from(["", "my cache"])),
         "stats": draw(st.integers(0, 9)) > 0,
         "pre": pre,
         "channel": draw(st.sampled_from(CHANNELS)),
@@ -452,6 +462,7 @@ def discipline_cases(draw, recipe: str | None = None):
         )),
         "mutate_restored": draw(st.booleans()),
         "mutations": draw(st.lists(st.sampled_from(MUTATIONS), min_size=1, max_size=4, unique=True)),
+        "second": draw(st.one_of(st.none(), _second(), _second())),
         "seed": draw(st.integers(0, 3)),
     }
 
@@ -494,7 +505,8 @@ class Life:
         elif cache_kind == "MemoryFullLocal":  # the twin of an HDF5-cached object: keeps every entry as well
             d.set_cache(d.CacheType.MEMORY_FULL, tolerance=tol, is_memory_shared=False)
         elif cache_kind == "HDF5":
-            d.set_cache(d.CacheType.HDF5, tolerance=tol, hdf_file_path=os.path.join(tmp, "cache.h5"), hdf_node_path="c20_node")
+            named = {"name": p["cache_name"]} if p.get("cache_name") else {}  # a cache name of its own (default: the node path)
+            d.set_cache(d.CacheType.HDF5, tolerance=tol, hdf_file_path=os.path.join(tmp, "cache.h5"), hdf_node_path="c20_node", **named)
         self.last_input = None
         self.history = []  # every point the object was executed / linearized at
         self.n_exec = 0
@@ -784,6 +796,7 @@ def _discipline_body(p, ctx, rec, tmp):
     if "after_scenario_run" in life.flags:
         seen.append(None)  # points chosen by the DOE: any later point may be a hit
     recorded = []
+    replayable = []
     failed_op = False  # an operation rejected by gemseo leaves the objects in status FAILED: later results depend on it
     for post in p["post"]:
         data = life.point(post["u"], post["partial"])
@@ -793,6 +806,7 @@ def _discipline_body(p, ctx, rec, tmp):
             ctx.known("sobieski_aerodynamics_linearize_after_restore")  # counted; the point is executed instead
             mode = "no"
         seen.append(data)
+        replayable.append((data, mode, post["k"], post["partial"]))
         if mode == "no":
             r1 = _call(lambda: plain(dict(ref.execute(_cp(data)))))
             r2 = _call(lambda: plain(dict(restored.execute(_cp(data)))))
@@ -859,11 +873,54 @@ def _discipline_body(p, ctx, rec, tmp):
                 expected = {o: {i: blk for i, blk in expected[o].items() if i in value[o]} for o in expected if o in value}
             d = diff(expected, value)
             ctx.check(d is None, "independence", f"after mutating the {who} object ({', '.join(done)}) the other one computes different values: {d}")
+    if p.get("second"):
+        _second_generation(p, ctx, life, rec, restored, stats, probe, cache_kind, tmp, replayable)
     if life.n_exec >= 1 and life.n_lin >= 1:
         ctx.nontriv(("discipline", p))
         ctx.cls("nontrivial")
     ctx.sample({"oracle": "discipline", "recipe": p["recipe"], "args": p["args"], "grammar": life.gtype, "cache": cache_kind,
                 "pre": [o["op"] for o in p["pre"]], "channel": channel, "mutations": p["mutations"]})
+
+
+def _second_generation(p, ctx, life, rec, first, stats, probe, cache_kind, tmp, points) -> None:
+    """Mutate the restored object, serialise it again and compare the second generation with it.
+
+    The object serialised here was itself created by unpickling: whatever ``__setstate__`` left behind
+    must not leak into the next ``__getstate__``.
+    """
+    second = p["second"]
+    all_mutations = {"mutations": list(p["mutations"]) + list(second["mutations"])}
+    done = [m for m in second["mutations"] if _mutate(first, m, life, cache_kind, stats, all_mutations)]
+    before = snapshot(first, stats, probe)
+    gen2 = roundtrip(first, second["channel"], p["protocol"], tmp, ctx)
+    ctx.check(type(gen2) is type(first) and gen2 is not first, "restored_type", f"second generation is a {type(gen2).__name__}")
+    d = diff(before, snapshot(gen2, stats, probe))
+    ctx.check(d is None, "second_generation_state",
+              f"object restored, modified ({', '.join(done) or 'nothing'}), serialised again and restored differs from what was serialised: {d}")
+    for m in done:
+        ctx.cls(f"second_generation_mutation:{m}")
+    ctx.cls("second_generation")
+    for data, mode, k, partial in points:
+        if cache_kind == "HDF5" and (partial or mode != "no"):
+            continue  # two live caches on one node: only points that are stored (hits, nothing written)
+        if mode == "no":
+            r1 = _call(lambda: plain(dict(first.execute(_cp(data)))))
+            r2 = _call(lambda: plain(dict(gen2.execute(_cp(data)))))
+            what = "execute"
+        else:
+            r1 = _call(lambda: plain({o: dict(v) for o, v in life.linearize(first, _cp(data), mode, k).items()}))
+            r2 = _call(lambda: plain({o: dict(v) for o, v in life.linearize(gen2, _cp(data), mode, k).items()}))
+            what = f"linearize[{mode}]"
+        ctx.check(r1[0] == r2[0] and (r1[0] == "ok" or r1[1] == r2[1]), "second_generation_behaviour",
+                  f"{what}: {r1[0]} {r1[1] if r1[0] == 'raises' else ''} on the serialised object, {r2[0]} {r2[1] if r2[0] == 'raises' else ''} on its restored copy")
+        if r1[0] == "ok":
+            d = diff(r1[1], r2[1])
+            ctx.check(d is None, "second_generation_behaviour", f"{what} differs between the serialised object and its restored copy: {d}")
+            ctx.cls(f"second_generation:{what}")
+    if stats:
+        c1 = (first.execution_statistics.n_executions, first.execution_statistics.n_linearizations)
+        c2 = (gen2.execution_statistics.n_executions, gen2.execution_statistics.n_linearizations)
+        ctx.check(c1 == c2, "second_generation_behaviour", f"counters after the same operations: {c1} vs {c2}")
 
 
 def _mutate(d, what: str, life: Life, cache_kind: str, stats: bool, p) -> bool:
@@ -881,6 +938,11 @@ def _mutate(d, what: str, life: Life, cache_kind: str, stats: bool, p) -> bool:
         if not arrays:
             return False
         defaults[arrays[0]] = defaults[arrays[0]] * 0.0 + 7.0
+        return True
+    if what == "defaults_delete":
+        if not arrays:
+            return False
+        del defaults[arrays[-1]]
         return True
     if what == "local_data":
         changed = False
@@ -915,7 +977,7 @@ def _mutate(d, what: str, life: Life, cache_kind: str, stats: bool, p) -> bool:
         d.cache.clear()
         return True
     if what == "execute":
-        if "defaults_inplace" in p["mutations"] or "defaults_rebind" in p["mutations"]:
+        if any(m in p["mutations"] for m in DEFAULTS_MUTATIONS):
             return False  # the point may have left the valid domain of the recipe
         try:
             d.execute(life.point([0.77, -0.55, 0.33]))
